@@ -216,6 +216,177 @@ Proof.
   rewrite E1 in H3. rewrite E2, <- map_rev. exact H3.
 Qed.
 
+(* ---- no rule is lost: a dropped matcher has a kept duplicate ------------------------------- *)
+Lemma dup_check_true : forall m m_,
+  dup_check m m_ = POk true ->
+  realpath (prefix (m_l10n m)) = realpath (prefix (m_l10n m_)) /\ pat (m_l10n m) = pat (m_l10n m_).
+Proof.
+  intros m m_. unfold ProjectFiles.dup_check.
+  destruct (str_eqb _ _) eqn:E1; simpl; [|discriminate].
+  destruct (N.eqb _ _) eqn:E2; simpl; [|discriminate].
+  intros _. split; [apply pf_str_eqb_eq; exact E1 | apply N.eqb_eq; exact E2].
+Qed.
+
+Lemma dup_check_core : forall a a' b b',
+  m_l10n a = m_l10n a' -> m_ref a = m_ref a' -> m_l10n b = m_l10n b' -> m_ref b = m_ref b' ->
+  dup_check a b = dup_check a' b'.
+Proof.
+  intros a a' b b' H1 H2 H3 H4. unfold ProjectFiles.dup_check. rewrite H1, H2, H3, H4. reflexivity.
+Qed.
+
+Lemma dedup_inner_drops : forall rest m j drops m' d',
+  dedup_inner m rest j drops = POk (m', d') ->
+  forall x, In x d' <->
+    In x drops \/ exists k m_, nth_error rest k = Some m_ /\ x = j + k /\ dup_check m m_ = POk true.
+Proof.
+  induction rest as [|m_ rest IH]; intros m j drops m' d' H x; simpl in H.
+  - inversion H; subst. split; [auto|]. intros [H1|[k [m0 [H1 _]]]]; [exact H1|].
+    destruct k; discriminate.
+  - destruct (dup_check m m_) as [[|]|] eqn:Ed; [| |discriminate].
+    + rewrite (IH _ _ _ _ _ H x). simpl. split.
+      * intros [[<-|H1]|[k [m0 [H1 [H2 H3]]]]].
+        -- right. exists 0, m_. repeat split; [lia | exact Ed].
+        -- left; exact H1.
+        -- right. exists (S k), m0. repeat split; [exact H1 | lia | exact H3].
+      * intros [H1|[k [m0 [H1 [H2 H3]]]]]; [left; right; exact H1|].
+        destruct k as [|k]; simpl in H1.
+        -- left. left. lia.
+        -- right. exists k, m0. repeat split; [exact H1 | lia | exact H3].
+    + rewrite (IH _ _ _ _ _ H x). split.
+      * intros [H1|[k [m0 [H1 [H2 H3]]]]]; [left; exact H1|].
+        right. exists (S k), m0. repeat split; [exact H1 | lia | exact H3].
+      * intros [H1|[k [m0 [H1 [H2 H3]]]]]; [left; exact H1|].
+        destruct k as [|k]; simpl in H1.
+        -- inversion H1; subst. congruence.
+        -- right. exists k, m0. repeat split; [exact H1 | lia | exact H3].
+Qed.
+
+Lemma dedup_outer_mono : forall ms i drops ms' d',
+  dedup_outer i ms drops = POk (ms', d') ->
+  (forall x, In x drops -> In x d') /\ (forall x, In x d' -> In x drops \/ i < x).
+Proof.
+  induction ms as [|m ms IH]; intros i drops ms' d' H.
+  - simpl in H. inversion H; subst. auto.
+  - destruct ms as [|m2 ms2].
+    + simpl in H. inversion H; subst. auto.
+    + rewrite dedup_outer_cons2 in H. destruct (mem_nat i drops).
+      * destruct (dedup_outer (S i) (m2 :: ms2) drops) as [[r d]|] eqn:E; [|discriminate H].
+        cbn [pbind fst snd] in H. inversion H; subst. destruct (IH _ _ _ _ E) as [I1 I2].
+        split; [exact I1|]. intros x Hx. apply I2 in Hx as [Hx|Hx]; [left; exact Hx | right; lia].
+      * destruct (dedup_inner m (m2 :: ms2) (S i) drops) as [[m1 d1]|] eqn:E1; [|discriminate H].
+        cbn [pbind fst snd] in H.
+        destruct (dedup_outer (S i) (m2 :: ms2) d1) as [[r d]|] eqn:E; [|discriminate H].
+        cbn [pbind fst snd] in H. inversion H; subst. destruct (IH _ _ _ _ E) as [I1 I2].
+        pose proof (dedup_inner_drops _ _ _ _ _ _ E1) as A. split.
+        -- intros x Hx. apply I1. apply A. left. exact Hx.
+        -- intros x Hx. apply I2 in Hx as [Hx|Hx]; [|right; lia].
+           apply A in Hx as [Hx|[k [m0 [_ [Hx _]]]]]; [left; exact Hx | right; lia].
+Qed.
+
+Lemma mem_nat_In : forall i l, mem_nat i l = true <-> In i l.
+Proof.
+  intros i l. unfold mem_nat. rewrite existsb_exists. split.
+  - intros [x [H E]]. apply Nat.eqb_eq in E. subst. exact H.
+  - intro H. exists i. split; [exact H | apply Nat.eqb_refl].
+Qed.
+
+(* an index that ends up dropped was dropped before, or is a duplicate of an earlier
+   index that is kept *)
+Lemma dedup_outer_dropped : forall ms i drops ms' d',
+  dedup_outer i ms drops = POk (ms', d') ->
+  forall b mb, nth_error ms b = Some mb -> In (i + b) d' ->
+    In (i + b) drops \/
+    exists a ma, a < b /\ nth_error ms a = Some ma /\ ~ In (i + a) d' /\ dup_check ma mb = POk true.
+Proof.
+  induction ms as [|m ms IH]; intros i drops ms' d' H b mb Hb Hin.
+  - destruct b; discriminate.
+  - destruct ms as [|m2 ms2].
+    + simpl in H. inversion H; subst. left. exact Hin.
+    + rewrite dedup_outer_cons2 in H. destruct (mem_nat i drops) eqn:Emem.
+      * destruct (dedup_outer (S i) (m2 :: ms2) drops) as [[r d]|] eqn:E; [|discriminate H].
+        cbn [pbind fst snd] in H. inversion H; subst.
+        destruct b as [|b]; [left; apply mem_nat_In in Emem; rewrite Nat.add_0_r; exact Emem|].
+        simpl in Hb. replace (i + S b) with (S i + b) in * by lia.
+        destruct (IH _ _ _ _ E b mb Hb Hin) as [Hd|[a [ma [H1 [H2 [H3 H4]]]]]]; [left; exact Hd|].
+        right. exists (S a), ma. repeat split; [lia | exact H2 | | exact H4].
+        replace (i + S a) with (S i + a) by lia. exact H3.
+      * destruct (dedup_inner m (m2 :: ms2) (S i) drops) as [[m1 d1]|] eqn:E1; [|discriminate H].
+        cbn [pbind fst snd] in H.
+        destruct (dedup_outer (S i) (m2 :: ms2) d1) as [[r d]|] eqn:E; [|discriminate H].
+        cbn [pbind fst snd] in H. inversion H; subst.
+        pose proof (dedup_inner_drops _ _ _ _ _ _ E1) as A.
+        destruct (dedup_outer_mono _ _ _ _ _ E) as [M1 M2].
+        assert (Hi : ~ In i d').
+        { intro Hx. apply M2 in Hx as [Hx|Hx]; [|lia].
+          apply A in Hx as [Hx|[k [m0 [_ [Hx _]]]]]; [|lia].
+          apply mem_nat_In in Hx. congruence. }
+        destruct b as [|b]; [rewrite Nat.add_0_r in Hin; contradiction|].
+        simpl in Hb. replace (i + S b) with (S i + b) in * by lia.
+        destruct (IH _ _ _ _ E b mb Hb Hin) as [Hd|[a [ma [H1 [H2 [H3 H4]]]]]].
+        -- apply A in Hd as [Hd|[k [m0 [Hk [Hx Hdup]]]]]; [left; exact Hd|].
+           assert (k = b) by lia. subst k. rewrite Hb in Hk. inversion Hk; subst m0.
+           right. exists 0, m. repeat split; [lia | | exact Hdup]. rewrite Nat.add_0_r. exact Hi.
+        -- right. exists (S a), ma. repeat split; [lia | exact H2 | | exact H4].
+           replace (i + S a) with (S i + a) by lia. exact H3.
+Qed.
+
+Lemma remove_drops_keeps : forall (ms : list mrec) i d b m,
+  nth_error ms b = Some m -> ~ In (i + b) d -> In m (remove_drops i ms d).
+Proof.
+  induction ms as [|m0 ms IH]; intros i d b m Hb Hn; [destruct b; discriminate|]. simpl.
+  destruct b as [|b]; simpl in Hb.
+  - inversion Hb; subst. rewrite Nat.add_0_r in Hn.
+    destruct (mem_nat i d) eqn:E; [apply mem_nat_In in E; contradiction | left; reflexivity].
+  - assert (In m (remove_drops (S i) ms d)).
+    { eapply IH; [exact Hb|]. replace (S i + b) with (i + S b) by lia. exact Hn. }
+    destruct (mem_nat i d); [assumption | right; assumption].
+Qed.
+
+Lemma Forall2_nth_error {A B} (P : A -> B -> Prop) : forall l l' b x,
+  Forall2 P l l' -> nth_error l b = Some x -> exists y, nth_error l' b = Some y /\ P x y.
+Proof.
+  intros l l' b x H. revert b. induction H; intros b Hb; [destruct b; discriminate|].
+  destruct b as [|b]; simpl in *; [inversion Hb; subst; eauto | apply IHForall2; exact Hb].
+Qed.
+
+(* every enabled rule is represented in the matcher list: by its own matcher, or by the
+   matcher of a rule with the same (real) prefix and the same pattern *)
+Lemma build_matchers_complete : forall locale hm cs ms r,
+  build_matchers locale hm cs = POk ms -> In r (enabled_rules locale cs) ->
+  exists m, In m ms /\
+    realpath (prefix (m_l10n m)) = realpath (prefix (with_locale (r_l10n r))) /\
+    pat (m_l10n m) = pat (with_locale (r_l10n r)) /\
+    ((m_l10n m = with_locale (r_l10n r) /\ m_ref m = r_ref r /\ incl (r_test r) (m_test m)) \/
+     exists r', In r' (enabled_rules locale cs) /\
+                m_l10n m = with_locale (r_l10n r') /\ m_ref m = r_ref r').
+Proof.
+  intros locale hm cs ms r H Hr. unfold ProjectFiles.build_matchers in H.
+  destruct (configs_matchers locale hm cs) as [raw|] eqn:E; [|discriminate]. simpl in H.
+  destruct (dedup_outer 0 (rev raw) []) as [[ms' d]|] eqn:E2; [|discriminate]. simpl in H.
+  inversion H; subst. clear H.
+  pose proof (configs_matchers_spec _ _ _ _ E) as F1.
+  pose proof (dedup_outer_core _ _ _ _ _ E2) as F2.
+  (* the matcher made for r, its position in the reversed list *)
+  destruct (In_nth_error _ _ Hr) as [n Hn].
+  destruct (Forall2_nth_error _ _ _ _ _ F1 Hn) as [mr [Hmr Hmade]].
+  apply made_fields in Hmade as [G1 [G2 [G3 G4]]].
+  apply nth_error_In in Hmr. apply in_rev in Hmr.
+  destruct (In_nth_error _ _ Hmr) as [b Hb].
+  destruct (Forall2_nth_error _ _ _ _ _ F2 Hb) as [mb' [Hb' [C1 [C2 [C3 C4]]]]].
+  destruct (in_dec Nat.eq_dec (0 + b) d) as [Hd|Hd].
+  - destruct (dedup_outer_dropped _ _ _ _ _ E2 b mr Hb Hd) as [[]|[a [ma [H1 [H2 [H3 H4]]]]]].
+    destruct (Forall2_nth_error _ _ _ _ _ F2 H2) as [ma' [Ha' [D1 [D2 [D3 D4]]]]].
+    apply dup_check_true in H4 as [P1 P2].
+    exists ma'. split; [eapply remove_drops_keeps; eassumption|].
+    rewrite <- D1, <- G1. split; [exact P1|]. split; [exact P2|]. right.
+    apply nth_error_In in H2. apply in_rev in H2.
+    destruct (Forall2_In_r _ _ _ _ F1 H2) as [r' [Hr' Hm']].
+    apply made_fields in Hm' as [K1 [K2 _]]. exists r'. repeat split; [exact Hr' | |]; congruence.
+  - exists mb'. split; [eapply remove_drops_keeps; eassumption|].
+    rewrite <- C1, G1. split; [reflexivity|]. split; [reflexivity|]. left.
+    repeat split; try congruence. rewrite <- G3. exact C4.
+Qed.
+
 (* ---- the first loop: which configurations take part ---------------------------------------- *)
 Lemma maybe_extend_In : forall (other mine : list (cnode M)) c,
   In c (maybe_extend mine other) -> In c mine \/ In c other.
@@ -296,6 +467,24 @@ Proof.
     unfold xs in Hx'. apply filter_In in Hx' as [Hx' _].
     apply G2 in Hx' as [[]|[p [Hp [Hpe Hpx]]]].
     exists p, x. auto.
+Qed.
+
+Lemma build_complete : forall locale hm ps f r,
+  build locale hm ps = POk f ->
+  In r (enabled_rules locale (fst (gather locale ps [] []))) ->
+  exists m, In m (pf_matchers f) /\
+    realpath (prefix (m_l10n m)) = realpath (prefix (with_locale (r_l10n r))) /\
+    pat (m_l10n m) = pat (with_locale (r_l10n r)) /\
+    ((m_l10n m = with_locale (r_l10n r) /\ m_ref m = r_ref r /\ incl (r_test r) (m_test m)) \/
+     exists r', In r' (enabled_rules locale (fst (gather locale ps [] []))) /\
+                m_l10n m = with_locale (r_l10n r') /\ m_ref m = r_ref r').
+Proof.
+  intros locale hm ps f r H Hr. unfold ProjectFiles.build in H.
+  destruct (gather locale ps [] []) as [configs excludes]. simpl in Hr.
+  match type of H with pbind ?X _ = _ => destruct X as [ex|]; [|discriminate] end.
+  simpl in H. destruct (build_matchers locale hm configs) as [ms|] eqn:Em; [|discriminate].
+  simpl in H. inversion H; subst. simpl.
+  eapply build_matchers_complete; eassumption.
 Qed.
 
 End Build.
